@@ -80,9 +80,9 @@ Proof.
       rewrite Ha; reflexivity.
 Qed.
 
-Lemma attr_ok_child_attr st c :
+Lemma attr_ok_child_attr k st c :
   child_ok (length (st_dirs st)) (length (st_leaves st)) c ->
-  attr_ok (abs (tick st)) (dump_of st) c (child_attr st c) = true.
+  attr_ok (abs (tick k st)) (dump_of st) c (child_attr st c) = true.
 Proof.
   destruct c as [y|l]; cbn [child_ok attr_ok]; intros Hlt.
   - unfold dump_of. cbn [dm_dirs]. rewrite nth_error_map'. unfold child_attr, get_dir.
@@ -98,11 +98,11 @@ Proof. apply ndirs_mod_dir. Qed.
 Lemma nleaves_init st x : length (st_leaves (init st x)) = length (st_leaves st).
 Proof. apply nleaves_mod_dir. Qed.
 
-Lemma attrs_ok_step c st o :
+Lemma attrs_ok_step c k st o :
   WF c st ->
   o_status (snd (step_core norm hidden st o)) = SOK ->
   attrs_part o (snd (step_core norm hidden st o))
-             (abs (tick (fst (step_core norm hidden st o)))) (dump_of (fst (step_core norm hidden st o))) = true.
+             (abs (tick k (fst (step_core norm hidden st o)))) (dump_of (fst (step_core norm hidden st o))) = true.
 Proof.
   intros H Hs. destruct o; cbn [attrs_part]; auto.
   - (* VirtualLookup *)
@@ -131,7 +131,7 @@ Proof.
     eapply sub_in; [|exact Hin]. eapply sub_trans; [apply sub_firstn|]. eapply sub_trans; [apply sub_filter|apply sub_seek].
 Qed.
 
-Lemma nlinks_ok_abs st : nlinks_ok (abs (tick st)) (dump_of st) = true.
+Lemma nlinks_ok_abs k st : nlinks_ok (abs (tick k st)) (dump_of st) = true.
 Proof.
   unfold nlinks_ok, abs, dump_of. cbn. rewrite map_map. cbn. apply list_eqb_refl. apply Z.eqb_refl.
 Qed.
